@@ -7,6 +7,10 @@ os.makedirs(dst, exist_ok=True)
 for f in ["patch.diff", "demo.rs", "demo.sh", "notes.md", "confirm.txt", "demo_output.txt"]:
     if os.path.exists(f"{src}/{f}"):
         shutil.copy(f"{src}/{f}", f"{dst}/{f}")
+# demo inputs that live in sub-directories (e.g. in/) belong to the demonstration as well
+for d in os.listdir(src):
+    if os.path.isdir(f"{src}/{d}") and not d.startswith('.'):
+        shutil.copytree(f"{src}/{d}", f"{dst}/{d}", dirs_exist_ok=True)
 meta = {"property": prop, "origin": "independent sub-agent given only the property text and a scratch worktree",
         "needs_to_manifest": needs, "caught_by": caught, "what_was_run": ran,
         "confirmed": "suite (141 pass, translate_examples fails as on the unchanged tree) with the change; demo fails with / passes without the change (confirm.txt)"}
